@@ -9,6 +9,31 @@ AST (python tuples), mirrors coq/C15/Model.v:
 import re
 
 
+def rets(s):
+    """expressions of a ('return', e | [e1, e2, ..]) statement"""
+    return list(s[1]) if isinstance(s[1], (list, tuple)) else [s[1]]
+
+
+def ret_arity(b):
+    """number of values the function with body b returns (that of its first return statement, not looking into callees)"""
+    for s in b:
+        t = s[0]
+        if t == 'return':
+            return len(rets(s))
+        subs = []
+        if t == 'defer': subs = [s[2]]
+        elif t in ('do', 'doexpr'): subs = [s[1]]
+        elif t in ('while', 'for'): subs = [s[2]]
+        elif t == 'repeat': subs = [s[1]]
+        elif t == 'if': subs = [s[2], s[3]]
+        elif t == 'switch': subs = [bb for bb, _ in s[2]] + [s[3]]
+        for bb in subs:
+            a = ret_arity(bb)
+            if a:
+                return a
+    return 0
+
+
 # ------------------------------------------------------------------ serialisation for the model driver
 def ser_block(b, out):
     out.append("(")
@@ -39,7 +64,7 @@ def ser_stmt(s, out):
     elif t == 'in': out += ["N", str(s[1])]
     elif t == 'break': out.append("B")
     elif t == 'continue': out.append("C")
-    elif t == 'return': out += ["R", str(s[1])]
+    elif t == 'return': out += ["R", str(len(rets(s)))] + [str(e) for e in rets(s)]
     elif t == 'retvoid': out.append("V")
     elif t == 'call': out += ["L", "1" if s[1] else "0"]; ser_block(s[2], out)
     else: raise ValueError(t)
@@ -164,19 +189,18 @@ class Printer:
             return [p + "continue"]
         if t == 'return':
             m = self.mode[-1]
-            if m == "int": return [p + "rv = zzxv(%d) return rv" % s[1]]
-            if m == "rec": return [p + "rv.v = zzxv(%d) return rv" % s[1]]
-            if m == "arr": return [p + "rv[1] = zzxv(%d) return rv" % s[1]]
-            # two returned values (the _mulret path of visitors.Return): the second one reads the clock right
-            # after the first was evaluated; the caller checks second == first + 1
-            if m == "pair": return [p + "return zzxv(%d), clock" % s[1]]
-            return [p + "return zzxv(%d)" % s[1]]
+            if m == "int": return [p + "rv = zzxv(%d) return rv" % rets(s)[0]]
+            if m == "rec": return [p + "rv.v = zzxv(%d) return rv" % rets(s)[0]]
+            if m == "arr": return [p + "rv[1] = zzxv(%d) return rv" % rets(s)[0]]
+            # several returned values: the _mulret path of visitors.Return
+            if m == "pair": return [p + "return " + ", ".join("zzxv(%d)" % e for e in rets(s))]
+            return [p + "return zzxv(%d)" % rets(s)[0]]
         if t == 'retvoid':
             return [p + "return;"]
         if t == 'call':
             name = self.function(s[1], s[2])
             if not s[1] and self.modes[name] == "pair":
-                return [p + "do local pa, pb = %s() if pb ~= pa + 1 then pa = -9 end zzpv(pa) end" % name]
+                return [p + "do local pa, pb = %s() zzpv(pa) zzpv(pb) end" % name]
             return [p + (name + "()" if s[1] else "zzpv(" + self.value_of(name) + ")")]
         raise ValueError(t)
 
@@ -186,8 +210,10 @@ class Printer:
 
     def function(self, void, body, name=None):
         mode = "call"
-        if not void and self.rng is not None and self.rng.random() < 0.5:
-            mode = self.rng.choice(self.RETMODES[1:])
+        if not void and ret_arity(body) >= 2:
+            mode = "pair"             # two returned values
+        elif not void and self.rng is not None and self.rng.random() < 0.5:
+            mode = self.rng.choice(self.RETMODES[1:4])
         self.mode.append("void" if void else mode)
         body_lines = self.block(body, 1, void)     # defines callees first
         self.mode.pop()
@@ -216,7 +242,7 @@ def print_program_ex(tests, rng=None):
         if void:
             call = "zt%d()" % i
         elif pr.modes["zt%d" % i] == "pair":
-            call = "do local pa, pb = zt%d() if pb ~= pa + 1 then pa = -9 end zzpv(pa) end" % i
+            call = "do local pa, pb = zt%d() zzpv(pa) zzpv(pb) end" % i
         else:
             call = "zzpv(%s)" % pr.value_of("zt%d" % i)
         main.append("%s which == %d then %s" % ("if" if i == 0 else "elseif", i, call))
@@ -293,7 +319,7 @@ class LuaPrinter:
         if t == 'repeat': return [p + "repeat"] + self.block(s[1], ind + 1) + [p + "until zzcd(%d)" % s[2]]
         if t == 'for': return [p + "for _i=1,%d do" % s[1]] + self.block(s[2], ind + 1) + [p + "end"]
         if t == 'break': return [p + "do break end"]
-        if t == 'return': return [p + "do return zzxv(%d) end" % s[1]]
+        if t == 'return': return [p + "do return zzxv(%d) end" % rets(s)[0]]
         if t == 'retvoid': return [p + "do return end"]
         if t == 'call':
             name = self.function(s[1], s[2])
@@ -369,8 +395,8 @@ def c_functions(ctext):
 
 def c_tokens(name, funcs, depth=0, pairs=()):
     """Token list of function `name`, callees inlined as call( ... ).  For a callee returning two values the
-    call site is `do local pa, pb = f() if pb ~= pa + 1 then pa = -9 end zzpv(pa) end`: its wrapper tokens
-    ({ ... if { } V }) are folded into the `V call( ... )` the model prints."""
+    call site is `do local pa, pb = f() zzpv(pa) zzpv(pb) end`: its wrapper tokens ({ ... V V }) are folded
+    into the `V V call( ... )` the model prints."""
     if depth > 60:
         raise RuntimeError("call nesting too deep")
     body = funcs[name]
@@ -404,8 +430,8 @@ def c_tokens(name, funcs, depth=0, pairs=()):
                 if not out or out[-1] != "{":
                     raise RuntimeError("two-value call site without its wrapper block")
                 out.pop()
-                out.extend(["V", "call("] + inner + [")"])
-                skipq[:] = ["if", "{", "}", "V", "}"]
+                out.extend(["V", "V", "call("] + inner + [")"])
+                skipq[:] = ["V", "V", "}"]
             else:
                 put(["call("] + inner + [")"])
     # canonicalise: an empty `else { }` is dropped (the model prints no else for an empty block)
@@ -443,12 +469,20 @@ class Gen:
         self.n += 1
         return self.n
 
+    def pick_nret(self, void):
+        """number of returned values of a new function: two (the _mulret path) for a quarter of them"""
+        return 0 if void else (2 if (not self.lua_subset and self.rng.random() < 0.25) else 1)
+
+    def mkret(self, nret):
+        return ('return', self.fresh()) if nret <= 1 else ('return', [self.fresh() for _ in range(nret)])
+
     def program(self):
         void = self.rng.random() < 0.3
         self.n = 0
-        body = self.block(0, dict(loop=False, doexpr=False, void=void, fn=True, defer=False), 2, 6)
+        nret = self.pick_nret(void)
+        body = self.block(0, dict(loop=False, doexpr=False, void=void, fn=True, defer=False, nret=nret), 2, 6)
         if not void:
-            body.append(('return', self.fresh()))
+            body.append(self.mkret(nret))
         elif self.rng.random() < 0.3:
             body.append(('retvoid',))
         return (void, body)
@@ -472,7 +506,8 @@ class Gen:
         r = self.rng
         self.n = 0
         void = r.random() < 0.5
-        cx = dict(loop=False, doexpr=True, void=void, fn=True, defer=False, sw=False)
+        nret = self.pick_nret(void)
+        cx = dict(loop=False, doexpr=True, void=void, fn=True, defer=False, sw=False, nret=nret)
 
         def md():
             if r.random() < 0.6:
@@ -488,7 +523,7 @@ class Gen:
         if r.random() < 0.4:
             body = md() + [('while', self.fresh(), body)]
         if not void:
-            body.append(('return', self.fresh()))
+            body.append(self.mkret(nret))
         return (void, body)
 
     def targeted(self):
@@ -498,7 +533,8 @@ class Gen:
         r = self.rng
         self.n = 0
         void = r.random() < 0.3
-        cx = dict(loop=True, doexpr=False, void=void, fn=True, defer=False, sw=True)
+        nret = self.pick_nret(void)
+        cx = dict(loop=True, doexpr=False, void=void, fn=True, defer=False, sw=True, nret=nret)
 
         def ex():
             e = self.exit_stmt(cx)
@@ -529,7 +565,7 @@ class Gen:
             loop = ('do', md() + [loop])
         body = md() + [loop, ('emit', self.fresh())] + md()
         if not void:
-            body.append(('return', self.fresh()))
+            body.append(self.mkret(nret))
         return (void, body)
 
     def block(self, depth, cx, lo=0, hi=4, no_defer=False):
@@ -559,7 +595,9 @@ class Gen:
         if not opts:
             return None
         s = self.rng.choice(opts)
-        if s[0] in ('return', 'in') and len(s) > 1:
+        if s[0] == 'return':
+            s = self.mkret(cx.get('nret', 1))
+        elif s[0] == 'in' and len(s) > 1:
             s = (s[0], self.fresh())
         return s
 
@@ -608,7 +646,7 @@ class Gen:
             if w < 0.93:
                 return ('do', self.block(depth + 1, cx, 0, 3))
             void = r.random() < 0.4
-            b = self.block(depth + 1, dict(loop=False, doexpr=False, void=void, fn=True, defer=False), 1, 4)
+            b = self.block(depth + 1, dict(loop=False, doexpr=False, void=void, fn=True, defer=False, nret=1), 1, 4)
             if not void:
                 b.append(('return', self.fresh()))
             return ('call', void, b)
@@ -634,9 +672,10 @@ class Gen:
             b += self.in_tail(depth + 1, dict(cx, doexpr=True), 0 if cx['defer'] else 2)
             return ('doexpr', b)
         void = r.random() < 0.4
-        b = self.block(depth + 1, dict(loop=False, doexpr=False, void=void, fn=True, defer=False), 1, 4)
+        nret = self.pick_nret(void)
+        b = self.block(depth + 1, dict(loop=False, doexpr=False, void=void, fn=True, defer=False, nret=nret), 1, 4)
         if not void:
-            b.append(('return', self.fresh()))
+            b.append(self.mkret(nret))
         return ('call', void, b)
 
 
